@@ -13,3 +13,17 @@ Theorem C11_provenance : forall (P: Type) (ok: P -> Prop) fuel items eof file,
   Forall (item_ok P ok) items -> ok eof -> ok file -> outcome_ok P ok (parse_items fuel items eof file).
 Proof. exact coord_provenance. Qed.
 Print Assumptions C11_provenance.
+
+(* identifiers, constants and operators always carry a coordinate: every node returned by any of the fifteen
+   expression productions of the whole-parser model (and every Compound) has coord = Some c - for every token
+   stream, state and fuel.  One mutual induction: a node's coordinate comes from a token or from an operand
+   that has one by induction. *)
+From PV Require Import AstDefs AstSpec AstImpl PyRepr PostLib CoordProofs.
+Theorem C11_expression_has_coordinate : forall (P: Type) f,
+  post P (fun v => exists c, get_coord P v = Some (Some c)) (p_expression P f).
+Proof. exact expression_has_coordinate. Qed.
+Print Assumptions C11_expression_has_coordinate.
+
+Theorem C11_all_expression_productions_have_coordinates : forall (P: Type) f, ALL P f.
+Proof. exact all_have_coordinates. Qed.
+Print Assumptions C11_all_expression_productions_have_coordinates.
